@@ -15,7 +15,7 @@ git -C $WT checkout -q -- linear_operator test 2>/dev/null
 ( cd $WT && PYTHONPATH=$WT /venv/bin/python $SD/demo.py >/dev/null 2>&1 ); clean_rc=$?
 git -C $WT apply $SD/patch.diff || { echo "patch does not apply"; exit 2; }
 ( cd $WT && PYTHONPATH=$WT /venv/bin/python $SD/demo.py >/dev/null 2>&1 ); seeded_rc=$?
-( cd $WT && PYTHONPATH=$WT /venv/bin/python -m pytest -q -p no:cacheprovider -x --timeout=900 test > $OUT/pytest_tail.txt 2>&1 ); pytest_rc=$?
+( cd $WT && PYTHONPATH=$WT /venv/bin/python -m pytest -q -p no:cacheprovider -x --timeout=900 -n 8 test > $OUT/pytest_tail.txt 2>&1 ); pytest_rc=$?
 tail -n 2 $OUT/pytest_tail.txt > $OUT/pytest_tail.tmp; mv $OUT/pytest_tail.tmp $OUT/pytest_tail.txt
 git -C $WT checkout -q -- linear_operator test
 cp $SD/patch.diff $OUT/patch.diff; cp $SD/demo.py $OUT/demo.py; [ -f $SD/notes.md ] && cp $SD/notes.md $OUT/notes.md
@@ -37,7 +37,7 @@ python3 - "$P" "$X" "$OUT" "${RES%,}" <<'PY'
 import json,sys
 P,X,OUT,RES=sys.argv[1:5]
 notes=open(OUT+"/notes.md").read() if __import__("os").path.exists(OUT+"/notes.md") else ""
-meta={"property":P,"seed":X,"confirmed":True,"what_i_ran":"tools/seedcheck.sh: demo.py on clean worktree (exit 0), demo.py with patch (exit 1), full pytest suite with patch (pass), then patch applied to /repo, ./vcheck quick, patch reverted",
+meta={"property":P,"seed":X,"confirmed":True,"what_i_ran":"tools/seedcheck.sh: demo.py on clean worktree (exit 0), demo.py with patch (exit 1), full pytest suite with patch (pass), then ./vcheck quick with VERIF_REPO pointing at the patched scratch worktree (/repo untouched), worktree restored",
       "needs_to_manifest":notes[:1500],"checks":json.loads("{"+RES+"}")}
 json.dump(meta,open(OUT+"/meta.json","w"),indent=1)
 PY
